@@ -283,7 +283,12 @@ func forType(t reflect.Type, seen map[reflect.Type]bool, ignore bool, schemas ma
 				namedEmbedded = field.IsExported() && isValidTagName(tagName)
 			}
 			if field.Anonymous && !namedEmbedded {
-				override := schemas[field.Type]
+				// The struct may be embedded by pointer.
+				embeddedType := field.Type
+				if embeddedType.Kind() == reflect.Pointer {
+					embeddedType = embeddedType.Elem()
+				}
+				override := schemas[embeddedType]
 				if override != nil {
 					// Type must be object, and only properties can be set.
 					if override.Type != "object" {
